@@ -287,6 +287,13 @@ func (e *Engine) lookupVar(fn *ssa.Function, li *loopInfo, st *State, name strin
 		}
 		for _, ins := range b.Instrs {
 			switch t := ins.(type) {
+			case *ssa.Phi:
+				// the variable as an earlier loop (whose header dominates this one) left it
+				if t.Comment == name {
+					if _, have := st.env[t]; have {
+						found, isAddr = t, false
+					}
+				}
 			case *ssa.DebugRef:
 				if id, ok := t.Expr.(interface{ String() string }); ok && id.String() == name {
 					if _, have := st.env[t.X]; have || isConstLike(t.X) {
@@ -297,6 +304,18 @@ func (e *Engine) lookupVar(fn *ssa.Function, li *loopInfo, st *State, name strin
 				if t.Comment == name {
 					found, isAddr = t, true
 				}
+			}
+		}
+	}
+	// a variable that lives in memory (address taken: its Alloc carries the name) is read from its cell in the current
+	// state - a DebugRef of its defining expression would give the value it was initialised with
+	for _, b := range fn.Blocks {
+		if !b.Dominates(li.header) {
+			continue
+		}
+		for _, ins := range b.Instrs {
+			if a, ok := ins.(*ssa.Alloc); ok && a.Comment == name {
+				found, isAddr = a, true
 			}
 		}
 	}
